@@ -1,6 +1,8 @@
 /-
   Model/Cmds/Codec.lean — driver requests exercising the number codec (DESIGN.md 3.3):
-  `pf64 <hex text>` / `pf32` parse, `df64 <hex bits>` / `df32` display, `i32 <hex text>`, `u8`.
+  `pf64 <hex text>` / `pf32` parse, `df64 <hex bits>` / `df32` display, `i32 <hex text>`, `u8`,
+  casts (`castf64i32`, `castf32i32`, `castf64f32`, `castf32f64`, `casti32f32`, `usizef64`), `ceilf64` / `ceilf32`, and the
+  arithmetic itself on bit patterns: `fop64|fop32 <add|sub|mul|div|sqrt|abs|neg|cmp|minmax> <a> <b>`.
 -/
 import RosuModel.Model.Proto
 import RosuModel.Model.FloatInst
@@ -23,8 +25,42 @@ def dispatchCodec (toks : List String) : Option String :=
   | ["castf64i32", b] => some (toString (Scalar.toI32 (Float.ofBits (UInt64.ofNat (natOfHex b)))))
   | ["castf32i32", b] => some (toString (Scalar.toI32 (Float32.ofBits (UInt32.ofNat (natOfHex b)))))
   | ["castf64f32", b] =>
-    let y := (Float.ofBits (UInt64.ofNat (natOfHex b))).toFloat32
+    let y : Float32 := Cvt.down (Float.ofBits (UInt64.ofNat (natOfHex b)))
     some (if y.isNaN then "nan" else hex32 y)
+  | ["castf32f64", b] =>
+    let y : Float := Cvt.up (Float32.ofBits (UInt32.ofNat (natOfHex b)))
+    some (if y.isNaN then "nan" else hex64 y)
+  | ["ceilf64", b] =>
+    let y : Float := Scalar.ceil (Float.ofBits (UInt64.ofNat (natOfHex b)))
+    some (if y.isNaN then "nan" else hex64 y)
+  | ["ceilf32", b] =>
+    let y : Float32 := Scalar.ceil (Float32.ofBits (UInt32.ofNat (natOfHex b)))
+    some (if y.isNaN then "nan" else hex32 y)
+  | ["usizef64", b] => some (toString (Scalar.toUsize (Float.ofBits (UInt64.ofNat (natOfHex b)))))
+  | ["fop64", op, a, b] =>
+    let x := Float.ofBits (UInt64.ofNat (natOfHex a))
+    let y := Float.ofBits (UInt64.ofNat (natOfHex b))
+    let num (z : Float) : String := if z.isNaN then "nan" else hex64 z
+    if op == "add" then some (num (x + y)) else if op == "sub" then some (num (x - y))
+    else if op == "mul" then some (num (x * y)) else if op == "div" then some (num (x / y))
+    else if op == "sqrt" then some (num (Scalar.sqrt x)) else if op == "abs" then some (num (Scalar.abs x))
+    else if op == "neg" then some (num (-x))
+    else if op == "cmp" then some (toString (Scalar.lt x y) ++ " " ++ toString (Scalar.le x y) ++ " " ++ toString (Scalar.eq x y)
+      ++ " " ++ toString (compare (Scalar.totalKey x) (Scalar.totalKey y) == .lt))
+    else if op == "minmax" then some (num (Scalar.min x y) ++ " " ++ num (Scalar.max x y))
+    else none
+  | ["fop32", op, a, b] =>
+    let x := Float32.ofBits (UInt32.ofNat (natOfHex a))
+    let y := Float32.ofBits (UInt32.ofNat (natOfHex b))
+    let num (z : Float32) : String := if z.isNaN then "nan" else hex32 z
+    if op == "add" then some (num (x + y)) else if op == "sub" then some (num (x - y))
+    else if op == "mul" then some (num (x * y)) else if op == "div" then some (num (x / y))
+    else if op == "sqrt" then some (num (Scalar.sqrt x)) else if op == "abs" then some (num (Scalar.abs x))
+    else if op == "neg" then some (num (-x))
+    else if op == "cmp" then some (toString (Scalar.lt x y) ++ " " ++ toString (Scalar.le x y) ++ " " ++ toString (Scalar.eq x y)
+      ++ " " ++ toString (compare (Scalar.totalKey x) (Scalar.totalKey y) == .lt))
+    else if op == "minmax" then some (num (Scalar.min x y) ++ " " ++ num (Scalar.max x y))
+    else none
   | ["casti32f32", n] => some (hex32 (Scalar.ofInt (n.toInt?.getD 0) : Float32))
   | _ => none
 
